@@ -185,6 +185,10 @@ func init() {
 					emit(hex.EncodeToString([]byte(body)) + "\t" + b01(g.Chance(1, 4)) + "\t0")
 				}
 			}
+			// large bodies (size, marker offset or -1): around 1, 8 and 16 MiB
+			for _, sz := range []int{1<<20 + 3, 8<<20 - 1, 8 << 20, 8<<20 + 4096, 9<<20 + 17, 16<<20 + 1} {
+				emit(fmt.Sprintf("big\t%d\t%d", sz, Pick(g, []int{-1, 100, 16000})))
+			}
 			for i := 0; i < n; i++ {
 				l := hex.EncodeToString(c20Body(g, tier)) + "\t" + b01(g.Chance(1, 3)) + "\t" + b01(g.Chance(1, 3))
 				if g.Chance(1, 4) {
@@ -196,6 +200,50 @@ func init() {
 		},
 		Run: func(line string, st *Stats) (string, string, bool) {
 			f := strings.Split(line, "\t")
+			if f[0] == "big" {
+				// bodies of several MiB, plain and compressed (a tiny wire size can inflate to any length): every byte
+				// comes back, whatever the size; decided by the reference on the original bytes
+				var n, off int
+				fmt.Sscan(f[1], &n)
+				fmt.Sscan(f[2], &off)
+				body := make([]byte, n)
+				for i := range body {
+					body[i] = byte(i*7 + i/251)
+					if body[i] == '<' {
+						body[i] = 'x'
+					}
+				}
+				if off >= 0 && off+6 < n {
+					copy(body[off:], "</head")
+				}
+				flags := ""
+				for _, gz := range []bool{false, true} {
+					h := http.Header{}
+					h.Set("Content-Type", "text/html")
+					wire := body
+					if gz {
+						var zb bytes.Buffer
+						zw := gzip.NewWriter(&zb)
+						_, _ = zw.Write(body)
+						_ = zw.Close()
+						wire = zb.Bytes()
+						h.Set("Content-Encoding", "gzip")
+					}
+					out, cl, _, tag, err := proxy.VerifFilterHTML(wire, h, "example.org", "injections.adguard.com")
+					if err != nil {
+						flags += "!ERROR-ON-LARGE-BODY"
+						continue
+					}
+					if !bytes.Equal(out, c20Ref(body, tag)) {
+						flags += fmt.Sprintf("!LARGE-BODY-DIFFERS-FROM-REFERENCE:gzip=%v got %d bytes of %d", gz, len(out), len(c20Ref(body, tag)))
+					}
+					if cl != int64(len(out)) {
+						flags += "!CONTENT-LENGTH"
+					}
+				}
+				st.Inc("large_bodies")
+				return "ok" + flags, "echo\tok", true
+			}
 			body, _ := hex.DecodeString(f[0])
 			gz := f[1] == "1"
 			csp := f[2] == "1"
